@@ -19,7 +19,6 @@ TripleIdx == <<1, 2, 4, 6, 9, 19, 22, 36, 37, 39, 40, 55, 57, 69, 3, 8, 28, 33, 
 VARIABLES c, phase
 vars == <<c, phase>>
 
-S_a == <<97>>
 S_b == <<98>>
 
 Ops == CASE Fam = "C07" -> <<K_eq, K_ne>>
